@@ -42,7 +42,8 @@ _LOGGER = logging.getLogger(__name__)
 #######################################################################################
 
 _FutureT: TypeAlias = asyncio.Future[Packet]
-_QueueEntryT: TypeAlias = tuple[Priority, dt, Command, QosParams, _FutureT]
+_SendFncT: TypeAlias = Callable[[Command], Coroutine[Any, Any, None]]
+_QueueEntryT: TypeAlias = tuple[Priority, dt, Command, QosParams, _FutureT, _SendFncT]
 
 
 class ProtocolContext:
@@ -309,8 +310,6 @@ class ProtocolContext:
         priority: Priority,
         qos: QosParams,
     ) -> Packet:
-        self._send_fnc = send_fnc  # TODO: REMOVE: make per Context, not per Command
-
         if isinstance(self._state, Inactive):
             raise exc.ProtocolSendFailed(f"{self}: Send failed (no active transport?)")
 
@@ -318,7 +317,8 @@ class ProtocolContext:
 
         fut: _FutureT = self._loop.create_future()
         try:
-            self._que.put_nowait((priority, dt.now(), cmd, qos, fut))
+            # the send_fnc (incl. its num_repeats) is per Command, not per Context
+            self._que.put_nowait((priority, dt.now(), cmd, qos, fut, send_fnc))
         except Full as err:
             fut.cancel()
             raise exc.ProtocolSendFailed(f"{self}: Send buffer overflow") from err
@@ -359,7 +359,9 @@ class ProtocolContext:
 
         while True:
             try:
-                *_, self._cmd, self._qos, self._fut = self._que.get_nowait()
+                *_, self._cmd, self._qos, self._fut, self._send_fnc = (
+                    self._que.get_nowait()
+                )
             except Empty:
                 self._cmd = self._qos = self._fut = None
                 self._lock.release()
